@@ -69,6 +69,10 @@ def run(res, tier, br, model_ok=True, search=False):
     files += [("bom.c", "\ufeffint\tg_a;\n"), ("ff.c", "int\tg_a;\n\f\nint\tg_b;\n"), ("nonl.c", "int\tg_a;"), ("leadnl.c", "\n\nint\tg_a;\n"),
               ("trailnl.c", "int\tg_a;\n\n\n"), ("uni.c", "/* caf\u00e9 */\nchar\t*g_s = \"na\u00efve \u2603\";\n"), ("onlynl.h", "\n"),
               ("leadhdr.c", "\n" + families.header.header42("leadhdr.c") + "\nint\tg_a;\n"), ("sp.c", " \nint\tg_a;\n \n")]
+    # every kind of statement, the forbidden ones included (the debug level must not change how any of them is read)
+    files += [("stmts.c", "int\tf(int a, int *tbl, void *ptr)\n{\n\tint\ti;\n\n\ti = 0;\n\tgoto end;\n\tgoto *ptr;\n\tgoto (tbl[i]);\n\tgoto *(ptr);\n"
+               "\tdo\n\t{\n\t\ti++;\n\t}\twhile (i < a);\n\tfor (i = 0; i < a; i++)\n\t\ta--;\n\tswitch (a)\n\t{\n\t\tcase 1:\n\t\t\tbreak ;\n\t\tdefault:\n\t\t\tbreak ;\n\t}\n"
+               "\ti = a ? 1 : 2;\n\ti = (a, i);\n\ttbl[i++] = (int)sizeof(a) + (*tbl)++;\nend:\n\treturn (i);\n}\n\nstruct s_a\tg_v = {.a = 1};\nint\t(*g_fp)(int) = 0;\n")]
     files += families.repo_samples()[:: (3 if big else 12)]
     tmp = tempfile.mkdtemp(prefix="verif_c16_")
     try:
@@ -83,7 +87,7 @@ def run(res, tier, br, model_ok=True, search=False):
             if not b or len(b) != 1:
                 continue            # fatal parse error: not "analysed to a verdict"
             rp = {"kind": "options", "name": name, "src": src}
-            hand = name in ("defs.c", "notice.c", "defs.h", "octal.c", "binary.c", "string.c", "esc.c")
+            hand = name in ("defs.c", "notice.c", "defs.h", "octal.c", "binary.c", "string.c", "esc.c", "stmts.c")
             opts = OPTS if (big or k < 4 or hand) else rng.sample(OPTS, 5)
             for o in opts:
                 use_sub = (k + len(o)) % 9 == 0
